@@ -293,9 +293,9 @@ func c08Exhaustive(t *testing.T, st *vstat.Stats) {
 		return out
 	}
 	type scope struct{ ar, maxLen int }
-	scopes := []scope{{1, 3}, {2, 3}}
+	scopes := []scope{{1, 3}, {2, 3}, {3, 2}, {4, 1}}
 	if vstat.Thorough() {
-		scopes = append(scopes, scope{3, 2}, scope{2, 4})
+		scopes = append(scopes, scope{2, 4}, scope{3, 3}, scope{4, 2})
 	}
 	for _, sc := range scopes {
 		ss := strs(sc.maxLen)
@@ -349,7 +349,7 @@ func c08Exhaustive(t *testing.T, st *vstat.Stats) {
 		st.Class(fmt.Sprintf("exhaustive-arity%d-len%d-tuples", sc.ar, sc.maxLen))
 		st.ClassN(fmt.Sprintf("exhaustive-arity%d-len%d-tuples", sc.ar, sc.maxLen), len(tuples)-1)
 	}
-	st.Extra("exhaustive_scope", "every tuple of arity 1 and 2 over strings of length <= 3 over {a, -, \\} (thorough: also arity 3 with length <= 2 and arity 2 with length <= 4): number of distinct data = number of tuples, each reads back its own value")
+	st.Extra("exhaustive_scope", "every tuple of arity 1 and 2 over strings of length <= 3, arity 3 with length <= 2 and arity 4 with length <= 1 over {a, -, \\} (thorough: also arity 2 with length <= 4, arity 3 with length <= 3, arity 4 with length <= 2): number of distinct data = number of tuples, each reads back its own value")
 	st.Exhaustive = true
 }
 
